@@ -246,6 +246,58 @@ func runC07(c *Case) error {
 					}
 				}
 			}
+			// the same sweep over a re-swap: swapped out, one row replaced on the heap (dirty), swapped out again
+			// under cancellation.  A failed re-swap must leave the matrix on its old mapping, still mapped.
+			first := -1
+			for i, row := range in.M.csr().Entries {
+				if len(row) > 0 {
+					first = i
+					break
+				}
+			}
+			for k := int64(1); first >= 0 && k <= int64(cnt.Polls)+1; k++ {
+				mm := in.M.csr()
+				if err := mm.Mmap(context.Background()); err != nil {
+					return err
+				}
+				old := csmMappingsOf(mm)
+				mm.Entries[first] = append([]sparse.Entry(nil), mm.Entries[first]...)
+				err := mm.Mmap(newCancelCtx(k, 0))
+				cnt.Runs++
+				if err != nil && err != context.Canceled {
+					cnt.Partial++
+				}
+				dangling := false
+				if err != nil {
+					now := allCsmMappings()
+					for _, o := range old {
+						found := false
+						for _, r := range now {
+							if r == o {
+								found = true
+							}
+						}
+						if !found {
+							dangling = true // rows still point into a region that was unmapped
+						}
+					}
+				}
+				if dangling {
+					cnt.Modified++
+					mm.Entries = nil // do not touch the rows again
+				} else if !sameMat(in.M, &mm.CSMatrix) {
+					cnt.Modified++
+				}
+				if !dangling {
+					_ = mm.Munmap()
+				}
+				if ents, _ := os.ReadDir(dir); len(ents) != 0 {
+					cnt.Leaked++
+					for _, e := range ents {
+						os.Remove(dir + "/" + e.Name())
+					}
+				}
+			}
 		}
 		c.setObs(cnt)
 		c.coq = fmt.Sprintf("OpSweep %d %d %d %d %d %d %d", opn, cnt.Polls, cnt.Runs, cnt.Partial, cnt.Leaked, cnt.Modified, cnt.Slow)
